@@ -11,6 +11,7 @@ import (
 	"runtime"
 	"strconv"
 	"sync"
+	"sync/atomic"
 	"time"
 
 	"github.com/relab/hotstuff/core/logging"
@@ -112,9 +113,13 @@ func twinsRun() {
 
 	wg.Add(int(numWorkers))
 
+	// the workers share one counter, so that all numScenarios scenarios are executed
+	// even if numScenarios is not a multiple of the number of workers.
+	var started atomic.Uint64
+
 	for i := 0; i < int(numWorkers); i++ {
 		go func() {
-			for i := uint64(0); i < numScenarios/uint64(numWorkers); i++ {
+			for started.Add(1) <= numScenarios {
 				if ok, err := t.generateAndExecuteScenario(); err != nil {
 					checkf("failed to execute scenario: %v", err)
 				} else if !ok {
